@@ -181,6 +181,14 @@ func optimalOnce(c OptCase, o *Obs, m align.SubstitutionMatrix, rm ref.Matrix, w
 			return fmt.Errorf("Global(%q,%q,Levenshtein) = %v, edit distance is %d", []byte(c.A), []byte(c.B), res.score, d)
 		}
 	}
+	// A sequence aligned with itself, the very same slice passed as both arguments.
+	if !c.SameSlice && len(c.A) > 0 {
+		self := c
+		self.B, self.SameSlice, self.Mutate = c.A, true, nil
+		if err := optimalOnce(self, &Obs{}, m, rm, wantNonZeroOpen); err != nil {
+			return fmt.Errorf("with one slice passed as both sequences: %w", err)
+		}
+	}
 	// Shipped matrices: swapping the arguments leaves the score unchanged.
 	if c.M.Named != "" {
 		sw := c.AlignCase
